@@ -25,6 +25,7 @@ def run(prog):
     for name in ("condition", "cond_helper"):
         fns = [f for f in prog.lib_fns if f.name == name and "decision_nnf::builder" in f.npath and "{closure" not in f.npath]
         for fn in fns:
+            fn = prog.default_args_worker(fn)      # `cond_helper` as the default path of `cond_helper_cached(.., &mut fresh memo)`
             te = fn.terms
             if te.ret is None:
                 continue
